@@ -27,6 +27,9 @@ pub enum ContractError {
     #[error("Didn't send any funds")]
     NoFunds {},
 
+    #[error("Native denom {denom} is reserved for cw20 vouchers")]
+    InvalidNativeDenom { denom: String },
+
     #[error("Amount larger than 2**64, not supported by ics20 packets")]
     AmountOverflow {},
 
